@@ -1,9 +1,12 @@
 (* C10 — par.Cache computes each key once and publishes the result safely.
    This file contains only the property theorems, each closed by [exact] of a lemma proved in
    Par/ParCacheBase.v / Par/ParCacheProofs.v / Par/ParExamples.v, with Print Assumptions beneath it.
-   [creachable fval deps progs s]: s is reached from the empty cache by some interleaving of the
+   [creachable fval deps crash progs s]: s is reached from the empty cache by some interleaving of the
    threads running [progs] (lists of Do(k)/Get(k) calls), one synchronisation operation or plain
-   access per step; f_k calls Do on the keys [deps k] (nested Do) and returns [fval k] (None = nil). *)
+   access per step; f_k calls Do on the keys [deps k] (nested Do) and then returns [fval k] (None = nil) -- or, when
+   [crash k] = true, does not return at all (it panics or calls runtime.Goexit).  Keys are natural numbers compared
+   by equality; there is no bound on how many of them are in use.  Every theorem is for all [crash] unless it
+   assumes (forall k, crash k = false). *)
 From Coq Require Import List Arith.
 From GI Require Import Gen.ParConsts Par.ParWork Par.ParCache Par.ParCacheBase Par.ParCacheProofs Par.ParExamples.
 Import ListNotations.
@@ -12,80 +15,84 @@ Theorem C10_done_flag_constants : Nat.eqb 0 cache_done_test = true /\ Nat.eqb ca
 Proof. exact (conj done_zero_is_not_done done_value_is_done). Qed.
 Print Assumptions C10_done_flag_constants.
 
-Theorem C10_f_once_per_key : forall (fval : nat -> option nat) (deps : nat -> list nat) (progs : list (list call))
+Theorem C10_do_unlock_not_deferred : cache_do_deferred = 0.
+Proof. exact do_unlock_not_deferred. Qed.
+Print Assumptions C10_do_unlock_not_deferred.
+
+Theorem C10_f_once_per_key : forall (fval : nat -> option nat) (deps : nat -> list nat) (crash : nat -> bool) (progs : list (list call))
     (s : cstate) (k : nat),
-  creachable fval deps progs s -> fbegins (ents s k) <= 1 /\ fends (ents s k) <= fbegins (ents s k).
+  creachable fval deps crash progs s -> fbegins (ents s k) <= 1 /\ fends (ents s k) <= fbegins (ents s k).
 Proof. exact f_once_per_key. Qed.
 Print Assumptions C10_f_once_per_key.
 
-Theorem C10_f_exactly_once_at_end : forall (fval : nat -> option nat) (deps : nat -> list nat)
+Theorem C10_f_exactly_once_at_end : forall (fval : nat -> option nat) (deps : nat -> list nat) (crash : nat -> bool)
     (progs : list (list call)) (s : cstate),
-  creachable fval deps progs s -> all_idle s = true ->
+  (forall k : nat, crash k = false) -> creachable fval deps crash progs s -> all_idle s = true ->
   forall (p : list call) (k : nat), In p progs -> In (CDo k) p ->
   fbegins (ents s k) = 1 /\ fends (ents s k) = 1 /\ result (ents s k) = fval k.
 Proof. exact f_exactly_once_at_end. Qed.
 Print Assumptions C10_f_exactly_once_at_end.
 
-Theorem C10_do_returns_f_value : forall (fval : nat -> option nat) (deps : nat -> list nat) (progs : list (list call))
+Theorem C10_do_returns_f_value : forall (fval : nat -> option nat) (deps : nat -> list nat) (crash : nat -> bool) (progs : list (list call))
     (s : cstate) (t : nat) (th : thr) (k : nat) (v : option nat),
-  creachable fval deps progs s -> nth_error (thrs s) t = Some th -> In (CDo k, v) (rets th) ->
+  creachable fval deps crash progs s -> nth_error (thrs s) t = Some th -> In (CDo k, v) (rets th) ->
   v = fval k /\ fbegins (ents s k) = 1 /\ fends (ents s k) = 1 /\ result (ents s k) = fval k.
 Proof. exact do_returns_f_value. Qed.
 Print Assumptions C10_do_returns_f_value.
 
-Theorem C10_nested_do_returns_f_value : forall (fval : nat -> option nat) (deps : nat -> list nat)
+Theorem C10_nested_do_returns_f_value : forall (fval : nat -> option nat) (deps : nat -> list nat) (crash : nat -> bool)
     (progs : list (list call)) (s : cstate) (t : nat) (th : thr) (k : nat) (v : option nat),
-  creachable fval deps progs s -> nth_error (thrs s) t = Some th -> In (k, v) (nrets th) ->
+  creachable fval deps crash progs s -> nth_error (thrs s) t = Some th -> In (k, v) (nrets th) ->
   v = fval k /\ fbegins (ents s k) = 1 /\ fends (ents s k) = 1 /\ result (ents s k) = fval k.
 Proof. exact nested_do_returns_f_value. Qed.
 Print Assumptions C10_nested_do_returns_f_value.
 
-Theorem C10_done_implies_deps_done : forall (fval : nat -> option nat) (deps : nat -> list nat)
+Theorem C10_done_implies_deps_done : forall (fval : nat -> option nat) (deps : nat -> list nat) (crash : nat -> bool)
     (progs : list (list call)) (s : cstate) (k d : nat),
-  creachable fval deps progs s -> isd (ents s k) = true -> In d (deps k) ->
+  creachable fval deps crash progs s -> isd (ents s k) = true -> In d (deps k) ->
   isd (ents s d) = true /\ fends (ents s d) = 1 /\ result (ents s d) = fval d.
 Proof. exact done_implies_deps_done. Qed.
 Print Assumptions C10_done_implies_deps_done.
 
-Theorem C10_do_after_f : forall (fval : nat -> option nat) (deps : nat -> list nat) (progs : list (list call))
+Theorem C10_do_after_f : forall (fval : nat -> option nat) (deps : nat -> list nat) (crash : nat -> bool) (progs : list (list call))
     (s : cstate) (t : nat) (th : thr) (k : nat),
-  creachable fval deps progs s -> nth_error (thrs s) t = Some th -> tpc th = DRead k ->
+  creachable fval deps crash progs s -> nth_error (thrs s) t = Some th -> tpc th = DRead k ->
   fends (ents s k) = 1 /\ result (ents s k) = fval k /\ C (is_inf k) (thrs s) = 0.
 Proof. exact do_after_f. Qed.
 Print Assumptions C10_do_after_f.
 
-Theorem C10_get_nonblocking : forall (fval : nat -> option nat) (deps : nat -> list nat) (s : cstate) (t : nat) (th : thr),
-  nth_error (thrs s) t = Some th -> in_get (tpc th) = true -> exists s' : cstate, cstep fval deps s t = Some s'.
+Theorem C10_get_nonblocking : forall (fval : nat -> option nat) (deps : nat -> list nat) (crash : nat -> bool) (s : cstate) (t : nat) (th : thr),
+  nth_error (thrs s) t = Some th -> in_get (tpc th) = true -> exists s' : cstate, cstep fval deps crash s t = Some s'.
 Proof. exact get_nonblocking. Qed.
 Print Assumptions C10_get_nonblocking.
 
-Theorem C10_get_nil_or_value : forall (fval : nat -> option nat) (deps : nat -> list nat) (progs : list (list call))
+Theorem C10_get_nil_or_value : forall (fval : nat -> option nat) (deps : nat -> list nat) (crash : nat -> bool) (progs : list (list call))
     (s : cstate) (t : nat) (th : thr) (k : nat) (v : option nat),
-  creachable fval deps progs s -> nth_error (thrs s) t = Some th -> In (CGet k, v) (rets th) ->
+  creachable fval deps crash progs s -> nth_error (thrs s) t = Some th -> In (CGet k, v) (rets th) ->
   v = None \/ v = fval k /\ fends (ents s k) = 1.
 Proof. exact get_nil_or_value. Qed.
 Print Assumptions C10_get_nil_or_value.
 
-Theorem C10_get_after_done : forall (fval : nat -> option nat) (deps : nat -> list nat) (progs : list (list call))
+Theorem C10_get_after_done : forall (fval : nat -> option nat) (deps : nat -> list nat) (crash : nat -> bool) (progs : list (list call))
     (s : cstate) (t : nat) (th : thr) (k : nat),
-  creachable fval deps progs s -> isd (ents s k) = true -> nth_error (thrs s) t = Some th ->
+  creachable fval deps crash progs s -> isd (ents s k) = true -> nth_error (thrs s) t = Some th ->
   (tpc th = GLoad k ->
-     cstep fval deps s t = Some (mkC (set_nth t (goto th (GLoad1 k)) (thrs s)) (ents s) (plain s))) /\
+     cstep fval deps crash s t = Some (mkC (set_nth t (goto th (GLoad1 k)) (thrs s)) (ents s) (plain s))) /\
   (tpc th = GLoad1 k ->
-     cstep fval deps s t = Some (mkC (set_nth t (goto th (GRead k)) (thrs s)) (ents s) (plain s))) /\
+     cstep fval deps crash s t = Some (mkC (set_nth t (goto th (GRead k)) (thrs s)) (ents s) (plain s))) /\
   (tpc th = GRead k ->
-     cstep fval deps s t = Some (mkC (set_nth t (ret th (CGet k) (fval k)) (thrs s)) (ents s) ((t, k, false) :: plain s))).
+     cstep fval deps crash s t = Some (mkC (set_nth t (ret th (CGet k) (fval k)) (thrs s)) (ents s) ((t, k, false) :: plain s))).
 Proof. exact get_after_done. Qed.
 Print Assumptions C10_get_after_done.
 
-Theorem C10_done_stable : forall (fval : nat -> option nat) (deps : nat -> list nat) (progs : list (list call))
+Theorem C10_done_stable : forall (fval : nat -> option nat) (deps : nat -> list nat) (crash : nat -> bool) (progs : list (list call))
     (s : cstate) (t : nat) (s' : cstate) (k : nat),
-  creachable fval deps progs s -> cstep fval deps s t = Some s' -> isd (ents s k) = true -> isd (ents s' k) = true.
+  creachable fval deps crash progs s -> cstep fval deps crash s t = Some s' -> isd (ents s k) = true -> isd (ents s' k) = true.
 Proof. exact done_stable. Qed.
 Print Assumptions C10_done_stable.
 
-Theorem C10_race_free : forall (fval : nat -> option nat) (deps : nat -> list nat) (progs : list (list call)) (s : cstate),
-  creachable fval deps progs s ->
+Theorem C10_race_free : forall (fval : nat -> option nat) (deps : nat -> list nat) (crash : nat -> bool) (progs : list (list call)) (s : cstate),
+  creachable fval deps crash progs s ->
   (forall (a b : nat) (tha thb : thr) (k : nat), a <> b ->
      nth_error (thrs s) a = Some tha -> nth_error (thrs s) b = Some thb ->
      plain_write k (tpc tha) = true -> plain_write k (tpc thb) = false /\ plain_read k (tpc thb) = false) /\
@@ -93,36 +100,78 @@ Theorem C10_race_free : forall (fval : nat -> option nat) (deps : nat -> list na
 Proof. exact race_free. Qed.
 Print Assumptions C10_race_free.
 
-Theorem C10_no_deadlock : forall (fval : nat -> option nat) (deps : nat -> list nat) (progs : list (list call))
-    (L : nat -> nat), (forall k d : nat, In d (deps k) -> L d < L k) ->
-  forall s : cstate, creachable fval deps progs s ->
-  all_idle s = true \/ (exists (t : nat) (s' : cstate), cstep fval deps s t = Some s').
+Theorem C10_no_deadlock : forall (fval : nat -> option nat) (deps : nat -> list nat) (crash : nat -> bool) (progs : list (list call))
+    (L : nat -> nat), (forall k d : nat, In d (deps k) -> L d < L k) -> (forall k : nat, crash k = false) ->
+  forall s : cstate, creachable fval deps crash progs s ->
+  all_idle s = true \/ (exists (t : nat) (s' : cstate), cstep fval deps crash s t = Some s').
 Proof. exact cache_no_deadlock. Qed.
 Print Assumptions C10_no_deadlock.
 
 Theorem C10_self_dependency_deadlocks_refuted :
   exists (deps : nat -> list nat) (progs : list (list call)) (s : cstate),
-    creachable ex_fval deps progs s /\ all_idle s = false /\ forall t, cstep ex_fval deps s t = None.
+    creachable ex_fval deps ex_nocrash progs s /\ all_idle s = false /\ forall t, cstep ex_fval deps ex_nocrash s t = None.
 Proof. exact self_dependency_deadlocks_refuted. Qed.
 Print Assumptions C10_self_dependency_deadlocks_refuted.
 
-Theorem C10_step_decreases : forall (fval : nat -> option nat) (deps : nat -> list nat) (kc : nat -> nat),
+Theorem C10_step_decreases : forall (fval : nat -> option nat) (deps : nat -> list nat) (crash : nat -> bool) (kc : nat -> nat),
   (forall k : nat, 13 + nested deps kc k 0 <= kc k) ->
-  forall (s : cstate) (t : nat) (s' : cstate), cstep fval deps s t = Some s' -> psi deps kc s' < psi deps kc s.
+  forall (s : cstate) (t : nat) (s' : cstate), cstep fval deps crash s t = Some s' -> psi deps kc s' < psi deps kc s.
 Proof. exact psi_decreases. Qed.
 Print Assumptions C10_step_decreases.
 
-Theorem C10_schedules_finite : forall (fval : nat -> option nat) (deps : nat -> list nat) (L : nat -> nat),
+Theorem C10_schedules_finite : forall (fval : nat -> option nat) (deps : nat -> list nat) (crash : nat -> bool) (L : nat -> nat),
   (forall k d : nat, In d (deps k) -> L d < L k) ->
-  forall (sch : list nat) (s s' : cstate), crun fval deps sch s = Some s' ->
+  forall (sch : list nat) (s s' : cstate), crun fval deps crash sch s = Some s' ->
   length sch + psi deps (kcL deps L) s' <= psi deps (kcL deps L) s.
 Proof. exact cache_terminates_acyclic. Qed.
 Print Assumptions C10_schedules_finite.
 
-Theorem C10_do_terminates : forall (fval : nat -> option nat) (deps : nat -> list nat) (progs : list (list call))
-    (L : nat -> nat), (forall k d : nat, In d (deps k) -> L d < L k) ->
-  forall s : cstate, creachable fval deps progs s ->
+Theorem C10_do_terminates : forall (fval : nat -> option nat) (deps : nat -> list nat) (crash : nat -> bool) (progs : list (list call))
+    (L : nat -> nat), (forall k d : nat, In d (deps k) -> L d < L k) -> (forall k : nat, crash k = false) ->
+  forall s : cstate, creachable fval deps crash progs s ->
   exists (sch : list nat) (s' : cstate),
-    crun fval deps sch s = Some s' /\ all_idle s' = true /\ length sch <= psi deps (kcL deps L) s.
+    crun fval deps crash sch s = Some s' /\ all_idle s' = true /\ length sch <= psi deps (kcL deps L) s.
 Proof. exact cache_can_finish. Qed.
 Print Assumptions C10_do_terminates.
+
+Theorem C10_distinct_keys_independent : forall (fval : nat -> option nat) (deps : nat -> list nat) (crash : nat -> bool)
+    (s : cstate) (t : nat) (th : thr) (s' : cstate) (k : nat),
+  nth_error (thrs s) t = Some th -> cstep fval deps crash s t = Some s' ->
+  pckey (tpc th) <> Some k -> (forall j : nat, ~ In (k, j) (stack th)) -> ents s' k = ents s k.
+Proof. exact distinct_keys_independent. Qed.
+Print Assumptions C10_distinct_keys_independent.
+
+Theorem C10_entries_never_removed : forall (fval : nat -> option nat) (deps : nat -> list nat) (crash : nat -> bool)
+    (progs : list (list call)) (s : cstate) (t : nat) (s' : cstate) (k : nat),
+  creachable fval deps crash progs s -> cstep fval deps crash s t = Some s' ->
+  (present (ents s k) = true -> present (ents s' k) = true) /\
+  (isd (ents s k) = true -> isd (ents s' k) = true /\ result (ents s' k) = result (ents s k) /\
+                           fbegins (ents s' k) = 1 /\ fends (ents s' k) = 1).
+Proof. exact entries_never_removed. Qed.
+Print Assumptions C10_entries_never_removed.
+
+Theorem C10_crashed_entry : forall (fval : nat -> option nat) (deps : nat -> list nat) (crash : nat -> bool)
+    (progs : list (list call)) (s : cstate) (k : nat),
+  creachable fval deps crash progs s -> 0 < orph (ents s k) ->
+  orph (ents s k) = 1 /\ fbegins (ents s k) = 1 /\ fends (ents s k) = 0 /\ locked (ents s k) = true /\
+  isd (ents s k) = false /\ C (holds k) (thrs s) = 0 /\ F k (thrs s) = 0 /\ C (is_call k) (thrs s) = 0.
+Proof. exact crashed_entry. Qed.
+Print Assumptions C10_crashed_entry.
+
+Theorem C10_f_crash_never_reinvoked : forall (fval : nat -> option nat) (deps : nat -> list nat) (crash : nat -> bool)
+    (progs : list (list call)) (s : cstate) (k : nat),
+  creachable fval deps crash progs s -> 0 < orph (ents s k) ->
+  forall (sch : list nat) (s' : cstate), crun fval deps crash sch s = Some s' ->
+  fbegins (ents s' k) = 1 /\ fends (ents s' k) = 0 /\ isd (ents s' k) = false /\ locked (ents s' k) = true /\
+  C (is_call k) (thrs s') = 0.
+Proof. exact f_crash_never_reinvoked. Qed.
+Print Assumptions C10_f_crash_never_reinvoked.
+
+Theorem C10_crashed_do_blocks_get_nil : forall (fval : nat -> option nat) (deps : nat -> list nat) (crash : nat -> bool)
+    (progs : list (list call)) (s : cstate) (t : nat) (th : thr) (k : nat),
+  creachable fval deps crash progs s -> 0 < orph (ents s k) -> nth_error (thrs s) t = Some th ->
+  (tpc th = DLock k -> cstep fval deps crash s t = None) /\
+  (tpc th = GLoad1 k ->
+     cstep fval deps crash s t = Some (mkC (set_nth t (ret th (CGet k) None) (thrs s)) (ents s) (plain s))).
+Proof. exact crashed_do_blocks_get_nil. Qed.
+Print Assumptions C10_crashed_do_blocks_get_nil.
